@@ -144,7 +144,82 @@ def do_run(ids):
     return 0
 
 
+REFAC = os.path.join(HERE, 'refactorings')
+
+
+def do_refactor_import(wt, prefix):
+    """Behaviour-preserving refactorings written by sub-agents: keep those that apply and pass the 136 tests."""
+    src = os.path.join(wt, 'REFACTOR')
+    metas = {m['id']: m for m in json.load(open(os.path.join(src, 'meta.json')))}
+    target = tempfile.mkdtemp(prefix='t2n-refactor-target-')
+    try:
+        for rid in sorted(metas):
+            patch = os.path.join(src, rid + '.diff')
+            if not os.path.exists(patch):
+                continue
+            d = scratch_copy()
+            try:
+                applied, out = apply_patch(d, patch)
+                if not applied:
+                    print('%s-%s: does not apply' % (prefix, rid))
+                    continue
+                rc, out = cargo_test(d, target, ['--lib'])
+                m = re.search(r'test result: (\w+)\. (\d+) passed; (\d+) failed', out or '')
+                ok = bool(m and m.group(1) == 'ok' and m.group(2) == '136')
+                print('%s-%s: %s' % (prefix, rid, m.group(0) if m else 'no result'))
+                if not ok:
+                    continue
+                o = os.path.join(REFAC, '%s-%s' % (prefix, rid))
+                os.makedirs(o, exist_ok=True)
+                shutil.copy(patch, os.path.join(o, 'patch.diff'))
+                json.dump(dict(metas[rid], id='%s-%s' % (prefix, rid), author='independent sub-agent (behaviour-preserving refactoring)',
+                               what_i_ran=['patch applies to /repo HEAD', 'cargo test --offline --lib: ' + m.group(0)]),
+                          open(os.path.join(o, 'meta.json'), 'w'), indent=1, ensure_ascii=False)
+            finally:
+                shutil.rmtree(d, ignore_errors=True)
+    finally:
+        shutil.rmtree(target, ignore_errors=True)
+    return 0
+
+
+def do_refactor_run(ids):
+    ids = ids or sorted(os.listdir(REFAC))
+    bad = 0
+    for rid in ids:
+        pdir = os.path.join(REFAC, rid)
+        if not os.path.exists(os.path.join(pdir, 'patch.diff')):
+            continue
+        d = scratch_copy()
+        try:
+            applied, out = apply_patch(d, os.path.join(pdir, 'patch.diff'))
+            if not applied:
+                print('%-14s patch does not apply to the current tree' % rid)
+                continue
+            fired = {}
+            for i in range(1, 19):
+                p = 'C%02d' % i
+                r = subprocess.run([os.path.join(HERE, 'check'), p, '--repo', d, '--no-evidence'], capture_output=True, text=True)
+                if r.returncode != 0:
+                    fired[p] = [re.sub(r'\s+', ' ', l.strip())[:300] for l in r.stdout.splitlines() if re.match(r'^\s+(FAIL|ANCHOR) ', l)][:4]
+            json.dump({'fired': fired}, open(os.path.join(pdir, 'result.json'), 'w'), indent=1, ensure_ascii=False)
+            if fired:
+                bad += 1
+                print('%-14s FALSE ALARM %s' % (rid, sorted(fired)))
+                for p, ks in fired.items():
+                    for k in ks[:2]:
+                        print('      %s: %s' % (p, k[:240]))
+            else:
+                print('%-14s silent' % rid)
+        finally:
+            shutil.rmtree(d, ignore_errors=True)
+    return 1 if bad else 0
+
+
 if __name__ == '__main__':
+    if len(sys.argv) >= 4 and sys.argv[1] == 'refactor-import':
+        sys.exit(do_refactor_import(sys.argv[2], sys.argv[3]))
+    if len(sys.argv) >= 2 and sys.argv[1] == 'refactor-run':
+        sys.exit(do_refactor_run(sys.argv[2:]))
     if len(sys.argv) >= 4 and sys.argv[1] == 'import':
         sys.exit(do_import(sys.argv[2], sys.argv[3]))
     if len(sys.argv) >= 2 and sys.argv[1] == 'run':
